@@ -10,6 +10,7 @@ void dump_more_symbols();
 void dump_more_det();
 void dump_more_util();
 void dump_more_macro();
+void dump_more_link();
 static void dump_more()
 {
   dump_more_cond();
@@ -20,5 +21,6 @@ static void dump_more()
   dump_more_det();
   dump_more_util();
   dump_more_macro();
+  dump_more_link();
 }
 #endif
